@@ -58,6 +58,8 @@ type c19Beh struct {
 	} `json:"out"`
 	Wrap string `json:"wrap,omitempty"` // handlers in front of the transport: "", "plain", "gzip", "log", "gzip+log"
 	Req  string `json:"req,omitempty"`  // "", "GET", "HEAD", "POST", "EXPECT"
+	Conn string `json:"conn,omitempty"` // "reused": an earlier request left the connection to the upstream in the idle pool
+	Body int    `json:"body,omitempty"` // the response body takes this many ms to arrive after the header
 }
 
 func c19Config(c c19Cfg) *config.Config {
@@ -149,8 +151,31 @@ func c19BehaviourPart(t *testing.T) map[string]any {
 		io.Copy(io.Discard, r.Body)
 		w.Header().Set("X-Upstream", "c19")
 		w.Header().Set("Content-Type", "text/plain")
+		b, _ := strconv.Atoi(r.URL.Query().Get("b"))
+		if b <= 0 {
+			w.WriteHeader(200)
+			io.WriteString(w, strings.Repeat("ok ", 200))
+			return
+		}
+		// a body that takes b ms: 20 flushed chunks, then an end marker
+		const chunks, size = 20, 512
+		w.Header().Set("X-Body-Length", strconv.Itoa(chunks*size+4))
 		w.WriteHeader(200)
-		io.WriteString(w, strings.Repeat("ok ", 200))
+		fl, _ := w.(http.Flusher)
+		for i := 0; i < chunks; i++ {
+			if _, err := io.WriteString(w, strings.Repeat("z", size)); err != nil {
+				return
+			}
+			if fl != nil {
+				fl.Flush()
+			}
+			select {
+			case <-time.After(time.Duration(b) * time.Millisecond / chunks):
+			case <-r.Context().Done():
+				return
+			}
+		}
+		io.WriteString(w, "END\n")
 	})
 	plain := httptest.NewServer(slow)
 	defer plain.Close()
@@ -193,14 +218,18 @@ func c19BehaviourPart(t *testing.T) map[string]any {
 
 	// One measurement: what the client saw and when.
 	type seen struct {
-		status int
-		el     time.Duration
-		err    error
+		status  int
+		el      time.Duration // time to the response header
+		err     error
+		bodyLen int64
+		bodyErr error
+		wantLen int64 // what the upstream announced (X-Body-Length), 0: nothing announced
+		tail    string
 	}
 	measure := func(b built) seen {
 		c := b.c
 		T := time.Duration(c.C.Rht) * time.Millisecond
-		cl := &http.Client{Timeout: T + c19Slack + time.Duration(c.Delay)*time.Millisecond + 2*time.Second, Transport: &http.Transport{DisableKeepAlives: true}}
+		cl := &http.Client{Timeout: T + c19Slack + time.Duration(c.Delay+c.Body)*time.Millisecond + 3*time.Second, Transport: &http.Transport{DisableKeepAlives: true}}
 		method, body := "GET", io.Reader(nil)
 		switch c.Req {
 		case "HEAD":
@@ -208,7 +237,20 @@ func c19BehaviourPart(t *testing.T) map[string]any {
 		case "POST", "EXPECT":
 			method, body = "POST", strings.NewReader(strings.Repeat("x", 1024))
 		}
-		req, err := http.NewRequest(method, b.srv.URL+"/?d="+strconv.Itoa(c.Delay), body)
+		if c.Conn == "reused" {
+			// the history: an earlier request through the same transport was answered at once and
+			// read to its end, so its connection to the upstream is back in the idle pool
+			resp, err := cl.Get(b.srv.URL + "/?d=0")
+			if err != nil {
+				return seen{err: fmt.Errorf("earlier request: %v", err)}
+			}
+			_, cerr := io.Copy(io.Discard, resp.Body)
+			resp.Body.Close()
+			if resp.StatusCode != 200 || cerr != nil {
+				return seen{err: fmt.Errorf("earlier request: status %d, body %v", resp.StatusCode, cerr)}
+			}
+		}
+		req, err := http.NewRequest(method, b.srv.URL+"/?d="+strconv.Itoa(c.Delay)+"&b="+strconv.Itoa(c.Body), body)
 		if err != nil {
 			return seen{err: err}
 		}
@@ -224,9 +266,15 @@ func c19BehaviourPart(t *testing.T) map[string]any {
 		if err != nil {
 			return seen{el: el, err: err}
 		}
-		io.Copy(io.Discard, resp.Body)
+		var tail bytes.Buffer
+		n, berr := io.Copy(&tail, resp.Body)
 		resp.Body.Close()
-		return seen{status: resp.StatusCode, el: el}
+		m := seen{status: resp.StatusCode, el: el, bodyLen: n, bodyErr: berr}
+		m.wantLen, _ = strconv.ParseInt(resp.Header.Get("X-Body-Length"), 10, 64)
+		if tb := tail.Bytes(); len(tb) >= 4 {
+			m.tail = string(tb[len(tb)-4:])
+		}
+		return m
 	}
 	// The verdict.  504 must arrive within the configured timeout + slack; the slack follows the
 	// scheduling noise measured while the wave ran: 500 ms when the process never stalled for
@@ -245,6 +293,10 @@ func c19BehaviourPart(t *testing.T) map[string]any {
 			return verdict{"not-cut-off", fmt.Sprintf("%s: status %d after %v; the upstream needs %d ms, the response-header timeout is %v: want 504 within %v", what, m.status, m.el, c.Delay, T, bound)}
 		case c.Out.Status == 504 && m.el > bound:
 			return verdict{"late", fmt.Sprintf("%s: 504 after %v, want within %v (timeout %v + %v slack; the process did not stall while this was measured): the client was held beyond the configured timeout", what, m.el, bound, T, slack)}
+		case c.Out.Status == 200 && m.status == 200 && m.bodyErr != nil:
+			return verdict{"body-truncated", fmt.Sprintf("%s: 200 in time, but the body broke off after %d bytes: %v (the upstream sends it over %d ms; dial timeout %d ms + response-header timeout %v bound the wait for the header, not the body)", what, m.bodyLen, m.bodyErr, c.Body, c.C.Dial, T)}
+		case c.Out.Status == 200 && m.status == 200 && c.Body > 0 && c19Method(c) != "HEAD" && (m.bodyLen != m.wantLen || m.tail != "END\n"):
+			return verdict{"body-truncated", fmt.Sprintf("%s: 200 in time, but only %d of %d body bytes arrived (the upstream sends them over %d ms)", what, m.bodyLen, m.wantLen, c.Body)}
 		case c.Out.Status == 200 && m.status != 200:
 			return verdict{"timely-upstream-not-served", fmt.Sprintf("%s: status %d after %v; the upstream answers after %d ms, the response-header timeout is %v: want 200", what, m.status, m.el, c.Delay, T)}
 		}
@@ -321,7 +373,16 @@ func c19BehaviourPart(t *testing.T) map[string]any {
 			if c.Wrap != "" {
 				f["wrap"], f["req"] = c.Wrap, c.Req
 			}
-			verifx.Fail(c, f, "%s transport, SetConfig(%s) after %s, handlers %q, upstream delay %d ms: %s", c.Kind, c.C.Name, c.First.Name, c.Wrap, c.Delay, last[i].msg)
+			if c.Conn != "" {
+				f["conn"], f["req"] = c.Conn, c.Req
+			}
+			if c.Body > 0 {
+				f["body"] = "long"
+				if c.Body <= 100 {
+					f["body"] = "short"
+				}
+			}
+			verifx.Fail(c, f, "%s transport, SetConfig(%s) after %s, handlers %q%s, upstream delay %d ms: %s", c.Kind, c.C.Name, c.First.Name, c.Wrap, map[bool]string{true: ", over a connection an earlier request left idle", false: ""}[c.Conn == "reused"], c.Delay, last[i].msg)
 		}
 		if i%37 == 3 && len(samples) < 3 {
 			bj, _ := json.Marshal(c)
@@ -336,6 +397,13 @@ func c19BehaviourPart(t *testing.T) map[string]any {
 	}
 	return map[string]any{"cases": len(cases), "ran": ran, "retried": retried, "unstable": unstable, "distinct_nontrivial": nontrivial, "samples": samples,
 		"waves_tight": tight, "waves_wide": wide, "waves_void": voided}
+}
+
+func c19Method(c c19Beh) string {
+	if c.Req == "HEAD" {
+		return "HEAD"
+	}
+	return "GET"
 }
 
 func c19ReqName(c c19Beh) string {
